@@ -38,6 +38,9 @@ ORDINARY = {1, 2, 'a', 'ab', 0.5, 1.5}
 CORPUS = [None, True, False,
           0, 1, -1, 2, -2, 7, -500, 2 ** 31 - 1, 2 ** 31 + 1, -(2 ** 31),
           2 ** 63 - 1, 2 ** 63 + 1, -(2 ** 63) - 1, 10 ** 40, -(10 ** 40),
+          # operands that can be written down (fewer than 4300 digits) whose
+          # products cannot be rendered in decimal by the interpreter
+          10 ** 2200 + 7, -(10 ** 2300) + 1,
           0.0, -0.0, 0.5, -0.5, 1.5, -1.5, 1e-300, 1e300, -1e300,
           float(2 ** 53), float(2 ** 53 + 2), 2 ** 53 + 1,
           '', 'a', 'A', 'ab', 'b', 'é', '\U0001d4b3', '10', 'a b',
@@ -59,7 +62,22 @@ def _ctx():
 
 
 def _same(x, y):
+    if type(x) is int and type(y) is int:
+        return x == y       # (no decimal rendering: any magnitude)
     return type(x) is type(y) and repr(x) == repr(y)
+
+
+class _R:
+    """repr() that survives integers beyond the int/str conversion limit"""
+
+    def __init__(self, v):
+        self.v = v
+
+    def __repr__(self):
+        v = self.v
+        if type(v) is int and v.bit_length() > 12000:
+            return '<int of %d bits, ...%d>' % (v.bit_length(), v % 10 ** 6)
+        return repr(v)
 
 
 def _outcome(text, binds):
@@ -91,19 +109,20 @@ def _judge(run, case, clause_prefix, expected, got, desc):
         if got[0] != 'ok':
             run.violate(clause_prefix + '-raises-instead-of-value', case,
                         '%s: expected %r, got %s: %s' % (
-                            desc, expected[1], type(got[1]).__name__, got[1]),
+                            desc, _R(expected[1]), type(got[1]).__name__,
+                            got[1]),
                         exc=got[1], input_class=case.get('class'))
         elif not _same(expected[1], got[1]):
             run.violate(clause_prefix + '-wrong-value', case,
                         '%s: expected %r (%s), got %r (%s)' % (
-                            desc, expected[1], type(expected[1]).__name__,
-                            got[1], type(got[1]).__name__),
+                            desc, _R(expected[1]), type(expected[1]).__name__,
+                            _R(got[1]), type(got[1]).__name__),
                         input_class=case.get('class'))
     else:
         if got[0] == 'ok':
             run.violate(clause_prefix + '-value-instead-of-' + expected[1],
                         case, '%s: expected %s, got value %r' % (
-                            desc, expected[1], got[1]),
+                            desc, expected[1], _R(got[1])),
                         input_class=case.get('class'))
         elif type(got[1]).__name__ != expected[1]:
             run.violate(clause_prefix + '-wrong-exception', case,
@@ -204,7 +223,8 @@ def check_laws(run, case):
         o = _outcome('($a / $b) * $b + ($a mod $b)', binds)
         if o[0] != 'ok' or not _same(o[1], a):
             run.violate('law-division-identity', case,
-                        'a=%r b=%r: (a/b)*b+(a mod b) = %r' % (a, b, o[1]))
+                        'a=%r b=%r: (a/b)*b+(a mod b) = %r' % (
+                            a, b, _R(o[1])))
 
 
 def check_transitivity(run, case):
